@@ -30,7 +30,9 @@
 //! collide with those of the second: wrong values (`concat($1, s), $1 = s` returns (zz, true) for $1 = 'a', s = 'z') or
 //! `Internal error: WHEN expression did not return a BooleanArray`. Signature (outcome-keyed): the PREPARE route fails and the
 //! PREPARE-optimized plan contains a `__common_expr_` alias. Fix: /verif/fixes/C41-prepare-must-not-store-optimized-plan.diff.
-//! Observation (label `numeric-type-drift`): with an untyped placeholder `abs($1) + id UNION ..` is planned as DOUBLE (0.0 instead of 0).
+//! Observation (labels `numeric-type-drift` / `text-type-drift`, every route but PREPARE with declared types): an untyped placeholder makes the planner
+//! pick DOUBLE for `abs($1) + id UNION ..` (0.0 instead of 0) and a string type for `nullif($1, $2) UNION ..` ("0" instead of 0); the values agree
+//! as numbers / as text, so these are reported as labels, not as row differences.
 //!
 //! Non-trivial: ≥ 2 placeholders in different clause kinds, at least one route compared, result non-empty.
 //!
@@ -677,8 +679,15 @@ fn evaluate_uncached(case: &Case, sig: &mut Option<String>) -> CaseResult {
                     // an integer-valued DOUBLE where the literal form has a BIGINT is reported as a label, not as a row difference
                     // (a placeholder of unknown type can make the planner pick DOUBLE for `abs($1)`; the values agree)
                     let mut diff = refsql::multiset_diff(expected, rows);
-                    if diff.is_some() && refsql::multiset_diff(&numeric_normal(expected), &numeric_normal(rows)).is_none() {
+                    // (only where the placeholder types are left to inference — every route except PREPARE with declared types: the statement is
+                    // planned, UNION branches coerced, before any value is known; PostgreSQL resolves such unknowns to text as well)
+                    let inferred = !(*route == "prepare" && case.declare_types);
+                    if diff.is_some() && inferred && refsql::multiset_diff(&numeric_normal(expected), &numeric_normal(rows)).is_none() {
                         labels.push(format!("numeric-type-drift:{route}"));
+                        diff = None;
+                    }
+                    if diff.is_some() && inferred && refsql::multiset_diff(&textual_normal(expected), &textual_normal(rows)).is_none() {
+                        labels.push(format!("text-type-drift:{route}"));
                         diff = None;
                     }
                     if diff.is_none() && !qlit.order_by.is_empty() {
@@ -719,6 +728,23 @@ fn evaluate_uncached(case: &Case, sig: &mut Option<String>) -> CaseResult {
 
 fn numeric_normal(rows: &[Vec<Value>]) -> Vec<Vec<Value>> {
     rows.iter().map(|r| r.iter().map(|v| if let Value::Int(i) = v { Value::Float(*i as f64) } else { v.clone() }).collect()).collect()
+}
+
+/// every value as the text the engine would print: `nullif($1, $2)` over untyped placeholders is planned as a string column
+fn textual_normal(rows: &[Vec<Value>]) -> Vec<Vec<Value>> {
+    rows.iter()
+        .map(|r| {
+            r.iter()
+                .map(|v| match v {
+                    Value::Int(i) => Value::Str(i.to_string()),
+                    Value::Float(f) if f.fract() == 0.0 && f.abs() < 9e15 => Value::Str((*f as i64).to_string()),
+                    Value::Float(f) => Value::Str(format!("{f}")),
+                    Value::Bool(b) => Value::Str(b.to_string()),
+                    other => other.clone(),
+                })
+                .collect()
+        })
+        .collect()
 }
 
 /// output column names of a query (aliases of the first select of the body)
